@@ -26,7 +26,7 @@ from typing import List, Optional
 
 from vlib.models import c18_cal as C
 
-HORIZON = 70   # points enumerated of an unbounded recurrence
+HORIZON = 45   # points enumerated of an unbounded recurrence
 
 
 def weekday(dn: int) -> int:
